@@ -3,5 +3,3 @@ package main
 import "strings"
 
 func equalFold(a, b string) bool { return strings.EqualFold(a, b) }
-
-func selfTest(c *Ctx, repo, verif string, extra map[string]any) {}
